@@ -19,28 +19,37 @@ import traceback
 from vp.core import Check, Failure, enc, encb, load_corpus
 
 META = dict(
-    level_text="Lean 4 theorems over a model of the condition / Simulate / command analyzers and of lint's exception "
-               "wrapper, for ALL node lists, tag sets, command sets and ALL similarity functions (Levenshtein ratio is a "
-               "parameter): the analysis returns normally (no exception path is reachable), lint maps every item to a "
-               "diagnostic (never the generic one), every Watch/Alarm/Simulate/Simulate-off reference to an undefined tag "
-               "and every command line with an undefined command yields an error item on its line, every incomplete "
-               "Watch/Alarm condition yields an error item on its line. Tied to the code by differential execution of the "
-               "real SemanticCheckAnalyzer and the real lint on generated and exhaustive small-scope methods.",
-    level_note="The model follows the code with fixes/C19-undefined-tag-falls-through.diff (as-is behaviour kept as "
-               "`repaired = false` with Lean witnesses old_condition_crashes / old_simulate_off_silent). Hypotheses of the "
-               "theorems: tag units are supported units or None (UOD validation), command-node names are not blank and "
-               "Simulate-off arguments are stripped (parser guarantees, transmitted and checked per case). The parser, the "
-               "other six analyzers and the validator regexes are not modelled: the oracle checks them for exceptions "
-               "only. Macro recursion is C41's subject and not generated.",
-    technique="Lean 4 proof (case analysis of the decision procedure, induction over the node list) + differential "
-              "correspondence (exhaustive small scope + random + malformed text)",
+    level_text="Lean 4 theorems over a model of six of the nine analyzers SemanticCheckAnalyzer runs (indentation, threshold, "
+               "condition, Simulate, command, macro — the ones with decision logic and partial operations) and of lint's "
+               "exception wrapper, for ALL node lists, tag sets (units arbitrary, also outside the unit table), command sets "
+               "and ALL similarity functions: these six return normally (no exception path is reachable), lint maps every "
+               "item to a diagnostic (never the generic one), every Watch/Alarm/Simulate/Simulate-off reference to an "
+               "undefined tag yields an 'UndefinedTag' error and every command line with an undefined command an "
+               "'UndefinedCommand' error on its line, every incomplete Watch/Alarm condition an error on its line. For the "
+               "other three analyzers (unreachable code, infinite block, whitespace) a table regenerated from analyzer.py by "
+               "an AST scan shows they contain no partial operation (theorem over the table). Tied to the code by "
+               "differential execution of the real SemanticCheckAnalyzer and the real lint on generated and exhaustive "
+               "small-scope methods; the oracle checks the named item kind per offending line in the lint output.",
+    level_note="The model follows the code with fixes/C19-undefined-tag-falls-through.diff (committed) and "
+               "fixes/C19-tag-unit-unknown-to-unit-table.diff (proposed: a tag published with a unit this installation's "
+               "unit table lacks made the analysis raise; on a tree without it the check reports that violation). Hypotheses: "
+               "the unit table is well-formed (checked on the regenerated table), command-node names are not blank and "
+               "Simulate-off arguments are stripped (parser guarantees, checked per case). Not modelled, covered by the "
+               "oracle only (any exception is a violation): the parser, create_analysis_input, AnalyzerItem ranges, "
+               "get_item_range/get_item_severity, attribute reads on None and AST helpers inside the three unmodelled "
+               "analyzers (the AST scan is syntactic). macro_calling_macro (C41) is a parameter.",
+    technique="Lean 4 proof (case analysis of the decision procedures, induction over the node list; source-derived table "
+              "checked by kernel evaluation) + differential correspondence (exhaustive small scope + random + malformed text)",
 )
 MODULE = "OPM.Properties.C19"
-REQUIRED = ["OPM.C19.analyze_total", "OPM.C19.lint_keeps_all_diagnostics", "OPM.C19.undefined_tag_flagged",
+REQUIRED = ["OPM.C19.analyzeAll_total", "OPM.C19.lintAll_keeps_all_diagnostics",
+            "OPM.C19.unmodelled_analyzers_have_no_partial_operation",
+            "OPM.C19.analyze_total", "OPM.C19.lint_keeps_all_diagnostics", "OPM.C19.undefined_tag_flagged",
             "OPM.C19.undefined_simulate_off_tag_flagged", "OPM.C19.undefined_command_flagged",
             "OPM.C19.incomplete_condition_flagged"]
 
-UNITS = [None, None, "s", "min", "L/h", "degC", "%", "bar", "mS/cm", "CV", "kg", "L", "AU", "LMH", "m2"]
+UNITS = [None, None, "s", "min", "L/h", "degC", "%", "bar", "mS/cm", "CV", "kg", "L", "AU", "LMH", "m2",
+         "furlong", "rpm"]   # the last two: units the engine may publish and this installation's table lacks
 TAG_POOL = ["Run Time", "Run Counter", "Block Time", "Process Time", "System State", "Flow", "TT01", "PU01 Speed",
             "Conductivity", "pH", "A", "AB", "FT01.PV", "Base", "Clock"]
 FAR_NAMES = ["Xyzzy", "Qwertyuiop", "ZZ9 Plural Z", "Unobtainium", "Nope", "xxx", "0815", "_tmp_"]
@@ -57,6 +66,20 @@ MESSAGE_TO_ID = {
     "Missing value": "MissingValue", "Unexpected tag unit": "UnexpectedUnit", "Missing unit": "MissingUnit",
     "Invalid unit": "InvalidUnit", "Incompatible units": "IncompatibleUnits", "Undefined command": "UndefinedCommand",
     "Commaned takes no arguments": "CommandNoArguments", "Invalid command arguments": "CommandArgsInvalid",
+    "Invalid indentation": "InvalidIndentation", "Threshold out of order": "ThresholdOutOfOrder",
+    "Invalid macro call": "MacroCallNameInvalid", "Referenced macro is not defined": "MacroCalledNotDefined",
+    "Invalid macro definition": "MacroNameInvalid", "Macro redefined": "MacroRedefined",
+    "Macro calls itself": "MacroRecursive", "Macro calls itself indirectly": "MacroRecursive",
+    "Macro not used": "MacroUnused",
+}
+# what the property names: the item kinds that report an undefined reference / an incomplete condition
+EXPECTED_ITEMS = {
+    "undefined-tag": ({"UndefinedTag"}, {"Undefined tag"}),
+    "undefined-command": ({"UndefinedCommand"}, {"Undefined command"}),
+    # the property names no item kind here ("reported as an error"); without a comparator the text after the tag name
+    # belongs to the name, so "Undefined tag" is one of the ways the code reports an incomplete condition
+    "incomplete-condition": ({"ConditionMissing", "MissingTag", "MissingOperator", "MissingValue", "UndefinedTag"},
+                             {"Condition missing", "Missing tag", "Missing comparator", "Missing value", "Undefined tag"}),
 }
 
 
@@ -131,25 +154,58 @@ def node_kind(node) -> str:
     return "other"
 
 
+ANALYZER_LETTERS = (("IndentationCheckAnalyzer", "I"), ("ThresholdCheckAnalyzer", "T"), ("ConditionCheckAnalyzer", "C"),
+                    ("SimulateCheckAnalyzer", "S"), ("CommandCheckAnalyzer", "M"), ("MacroCheckAnalyzer", "X"))
+
+
 def observe(case: dict) -> dict:
     """Run parser + SemanticCheckAnalyzer + lint on the case; returns op lines for the model and the observations."""
     from Levenshtein import ratio
-    from openpectus.lang.exec.analyzer import (SemanticCheckAnalyzer, ConditionCheckAnalyzer, SimulateCheckAnalyzer,
-                                              CommandCheckAnalyzer, AnalyzerItemType)
+    import openpectus.lang.model.ast as p
+    from openpectus.lang.exec.analyzer import SemanticCheckAnalyzer, AnalyzerItemType
     from openpectus.lang.model.parser import ParserMethod, create_method_parser
     from openpectus.lsp import lsp_analysis
     from pylsp.workspace import Document, Workspace
     obs: dict = {"ops": [], "analysis": "", "lint": "", "exc": None, "site": None, "error_lines": set(), "nodes": [],
-                 "lint_error_lines": None}
+                 "lint_error_lines": None, "error_items": set(), "lint_errors": set()}
     uod, tags, commands = build_env(case)
     ops = [f"tag\t{enc(n)}\t{oenc(u)}" for n, u in case["tags"]]
     try:
         method = ParserMethod.from_pcode(case["text"])
         program = create_method_parser(method, uod_command_names=[]).parse_method(method)
     except Exception as e:  # noqa: BLE001
-        obs.update(ops=ops + ["analyze", "lint"], analysis="err:other:parse:" + type(e).__name__, exc=e, site="parser")
+        obs.update(ops=ops + ["analyzeall", "lintall"], analysis="err:other:parse:" + type(e).__name__, exc=e, site="parser")
         obs["lint"] = "generic"
         return obs
+    # --- the analysis itself; `MacroNode.macro_calling_macro` (C41) is a parameter of the model: record what it answers
+    recursive: dict[int, bool] = {}
+    orig = p.MacroNode.macro_calling_macro
+
+    def logged(self, macros, name=None, visited=None):
+        r = orig(self, macros, name, visited)
+        if name is None and visited is None:
+            recursive[self.position.line] = bool(r and self.name in r)
+        return r
+    an = SemanticCheckAnalyzer(tags, commands)
+    p.MacroNode.macro_calling_macro = logged
+    try:
+        an.analyze(program)
+        items = []
+        for cls, letter in ANALYZER_LETTERS:
+            for a in an.analyzers:
+                if type(a).__name__ == cls:
+                    for it in a.items:
+                        items.append(f"{letter}:{it.id}:{it.range.start.line}:"
+                                     f"{'E' if it.type == AnalyzerItemType.ERROR else '-'}:"
+                                     f"{'fix' if it.data.get('type') == 'fix-typo' else '-'}")
+        obs["analysis"] = " ".join(items) or "none"
+        obs["error_lines"] = {it.range.start.line for it in an.items if it.type == AnalyzerItemType.ERROR}
+        obs["error_items"] = {(it.range.start.line, it.id) for it in an.items if it.type == AnalyzerItemType.ERROR}
+    except Exception as e:  # noqa: BLE001
+        obs.update(analysis=classify(e), exc=e, site=raising_site(e))
+    finally:
+        p.MacroNode.macro_calling_macro = orig
+    # --- what the model is told
     cmd_ops, sim_ops, node_ops = [], [], []
     for n, v in case["cmds"]:
         c = commands.get(n)
@@ -158,14 +214,16 @@ def observe(case: dict) -> dict:
     tag_names, cmd_names = [n for n, _ in case["tags"]], [n for n, _ in case["cmds"]]
     seen_sim = set()
 
-    def sims(query, cands):
-        if query is None or len(query) <= 2:
+    def sims(query, cands, min_len=3):
+        if query is None or len(query) < min_len:
             return
         for cand in cands:
             if (query, cand) not in seen_sim and ratio(query, cand) > 0.7:
                 seen_sim.add((query, cand))
                 sim_ops.append(f"sim\t{enc(query)}\t{enc(cand)}")
-    for node in walk(program):
+    all_nodes = list(walk(program))
+    macro_names = [n.name for n in all_nodes if isinstance(n, p.MacroNode)]
+    for node in all_nodes:
         kind = node_kind(node)
         tov = getattr(node, "tag_operator_value", None) if kind in ("watch", "alarm", "simulate") else None
         name = node.instruction_name
@@ -180,29 +238,23 @@ def observe(case: dict) -> dict:
             sims(tov.tag_name, tag_names)
         if kind == "simulateoff":
             sims(node.arguments, tag_names)
+        mk, mname, mrec = "none", "", False
+        if isinstance(node, p.MacroNode):
+            mk, mname, mrec = "macro", node.name, recursive.get(node.position.line, False)
+        elif isinstance(node, p.CallMacroNode):
+            mk, mname = "call", node.name
+            sims(node.name, macro_names, min_len=1)   # the macro analyzer has no minimum length
+        parent = 0 if node.parent is None or isinstance(node.parent, p.ProgramNode) else node.parent.position.line + 1
         obs["nodes"].append({"line": node.position.line, "kind": kind, "name": name})
         node_ops.append("\t".join([
-            "node", str(node.position.line), kind, encb(tov is not None),
+            "xnode", str(node.position.line), kind, encb(tov is not None),
             oenc(tov.tag_name if tov else None), enc(tov.op if tov else ""), enc(tov.rhs if tov else ""),
             oenc(tov.tag_value if tov else None), oenc(tov.tag_unit if tov else None),
             enc(node.instruction_name), enc(getattr(node, "line", "") or ""), enc(node.arguments),
-            encb(bool(node.has_argument)), encb(valid)]))
-    obs["ops"] = ops + cmd_ops + sim_ops + node_ops + ["analyze", "lint"]
-    an = SemanticCheckAnalyzer(tags, commands)
-    try:
-        an.analyze(program)
-        items = []
-        for cls, letter in ((ConditionCheckAnalyzer, "C"), (SimulateCheckAnalyzer, "S"), (CommandCheckAnalyzer, "M")):
-            for a in an.analyzers:
-                if type(a) is cls:
-                    for it in a.items:
-                        items.append(f"{letter}:{it.id}:{it.range.start.line}:"
-                                     f"{'E' if it.type == AnalyzerItemType.ERROR else '-'}:"
-                                     f"{'fix' if it.data.get('type') == 'fix-typo' else '-'}")
-        obs["analysis"] = " ".join(items) or "none"
-        obs["error_lines"] = {it.range.start.line for it in an.items if it.type == AnalyzerItemType.ERROR}
-    except Exception as e:  # noqa: BLE001
-        obs.update(analysis=classify(e), exc=e, site=raising_site(e))
+            encb(bool(node.has_argument)), encb(valid),
+            encb(bool(node.indent_error)), encb(isinstance(node, p.WhitespaceNode)),
+            oenc(node.threshold_part if node.threshold is not None else None), str(parent), mk, enc(mname), encb(mrec)]))
+    obs["ops"] = ops + cmd_ops + sim_ops + node_ops + ["analyzeall", "lintall"]
     # the editor path
     lsp_analysis.create_analysis_input.cache_clear()
     lsp_analysis.fetch_uod_info = lambda _eid: uod
@@ -223,6 +275,7 @@ def observe(case: dict) -> dict:
             obs["lint"] = " ".join(out) or "none"
             # what the editor shows: the lines that carry an error diagnostic (every analyzer, not only the modelled ones)
             obs["lint_error_lines"] = {d["range"]["start"]["line"] for d in diags if d.get("severity") == 1}
+            obs["lint_errors"] = {(d["range"]["start"]["line"], d.get("code")) for d in diags if d.get("severity") == 1}
     except Exception as e:  # noqa: BLE001
         obs["lint"] = "err:lint-raised:" + type(e).__name__
     return obs
@@ -278,6 +331,8 @@ def unit_for(rng, tags, tag: str) -> str:
     tu = dict((n, u) for n, u in tags).get(tag)
     r = rng.random()
     if tu is not None and r < 0.5:
+        if not U.is_supported_unit(tu):   # a unit outside this installation's table: same unit, or any other
+            return tu if rng.random() < 0.5 else rng.choice(["s", "L/h", "kg"])
         return tu if rng.random() < 0.5 else rng.choice(U.QUANTITY_UNIT_MAP[U.get_unit_quantity_name(tu)])
     if r < 0.65:
         return ""
@@ -375,17 +430,57 @@ def gen_method(rng, tags, cmds, n_lines: int) -> tuple[str, list[dict]]:
             add(th + t, e)
         elif r < 0.88:
             add(rng.choice(["Mark: A", "", "# comment", "   ", "Notify: hello", "Batch: B1"]), None)
-        elif r < 0.94:
+        elif r < 0.93:
             add("Block: B", None)
             add("Mark: in block", None, 4)
             add("End block", None, 4)
+        elif r < 0.955:
+            # what the other analyzers react to: End block(s) in odd places, nesting, out-of-order thresholds
+            k = rng.random()
+            if k < 0.3:
+                add(rng.choice(["End block", "End blocks", "5 End block"]), None)
+            elif k < 0.6:
+                add("Block: Outer", None)
+                add("Watch: Run Time > 1 s" if any(n == "Run Time" for n, _ in tags) else "Mark: w", None, 4)
+                add("Block: Inner", None, 8)
+                add(rng.choice(["End blocks", "End block", "Mark: deep", "Stop"]), None, 12)
+                add("Mark: after inner", None, 8)
+                add("End block", None, 4)
+            else:
+                add("10 Mark: late", None)
+                add("2 Mark: early", None)
+                if rng.random() < 0.5:
+                    add("1 Base: s", None) if any(n == "Base" for n, _ in cmds) else add("0 Mark: zero", None)
         else:
-            if defined_macros and rng.random() < 0.5:
+            k = rng.random()
+            if defined_macros and k < 0.3:
                 add(f"Call macro: {rng.choice(defined_macros)}", None)
+            elif k < 0.45:
+                # call of an undefined macro — with and without macros defined, close and far names
+                add(f"Call macro: {rng.choice(['M9', 'Nope', 'M1x', '', 'Wash'])}".rstrip(), None)
+            elif k < 0.55 and defined_macros:
+                m = rng.choice(defined_macros)          # redefinition
+                add(f"Macro: {m}", None)
+                add("Mark: redefined", None, 4)
+            elif k < 0.7:
+                m = f"R{len(defined_macros) + 1}"        # a macro that calls itself, directly or through a Watch
+                add(f"Macro: {m}", None)
+                if rng.random() < 0.5:
+                    add(f"Call macro: {m}", None, 4)
+                else:
+                    add("Block: In macro", None, 4)
+                    add(f"Call macro: {m}", None, 8)
+                    add("End block", None, 8)
+                defined_macros.append(m)
+            elif k < 0.8:
+                add("Macro", None)                       # no name
+                add("Mark: anonymous", None, 4)
             else:
                 m = f"M{len(defined_macros) + 1}"
                 add(f"Macro: {m}", None)
                 add("Mark: in macro", None, 4)
+                if defined_macros and rng.random() < 0.4:
+                    add(f"Call macro: {rng.choice(defined_macros)}", None, 4)   # macro calling an earlier macro
                 defined_macros.append(m)
     return "\n".join(lines), expect
 
@@ -394,16 +489,16 @@ def exhaustive_cases() -> list[dict]:
     """Every combination of (keyword × tag reference × operator × right-hand side) against three environments."""
     envs = {
         "none": [],
-        "close": [["Flow", "L/h"], ["Flow rate", None], ["Run Time", "s"], ["pH", None]],
+        "close": [["Flow", "L/h"], ["Flow rate", None], ["Run Time", "s"], ["pH", None], ["Dist", "furlong"]],
         "far": [["Conductivity", "mS/cm"], ["pH", None], ["TT01", "degC"]],
     }
     cmds = [list(c) for c in CMD_POOL[:6]]
     out = []
     for env_name, tags in envs.items():
-        refs = ["Flow", "pH", "Flwo", "Xyzzy", "Q", "", "Run Tim", "TT01"]
+        refs = ["Flow", "pH", "Flwo", "Xyzzy", "Q", "", "Run Tim", "TT01", "Dist"]
         for kw, ref, op, rhs in itertools.product(
                 ["Watch", "Alarm", "Simulate"], refs, ["", ">", "=", "!="],
-                ["", "3", "3 L/h", "3 L/min", "3 s", "3 xx", "abc", "L/h", "3degC"]):
+                ["", "3", "3 L/h", "3 L/min", "3 s", "3 xx", "abc", "L/h", "3degC", "3 furlong"]):
             if kw == "Simulate" and op in (">", "!="):
                 continue
             text = f"{kw}: {ref}{' ' + op if op else ''}{' ' + rhs if rhs else ''}"
@@ -527,16 +622,20 @@ def judge(case: dict, obs: dict) -> list[Failure]:
     src = case["text"].splitlines()
     shown = obs["lint_error_lines"]
     for exp in case["expect"]:
-        if exp["line"] not in obs["error_lines"]:
-            fails.append(Failure(f"not-flagged:{exp['what']}:{kinds.get(exp['line'], '?')}", pub,
-                                 f"line {exp['line']} ({src[exp['line']]!r}) has an "
-                                 f"{exp['what'].replace('-', ' ')} but no error item is reported on it"))
-        elif shown is not None and exp["line"] not in shown:
-            # the property is about what the editor shows: an error diagnostic ON the offending line
-            fails.append(Failure(f"no-diagnostic-on-line:{exp['what']}:{kinds.get(exp['line'], '?')}", pub,
-                                 f"line {exp['line']} ({src[exp['line']]!r}) has an {exp['what'].replace('-', ' ')}; the "
-                                 f"analyzer reports it, but lint shows no error diagnostic on that line "
-                                 f"(error diagnostics on lines {sorted(shown)})"))
+        ids, codes = EXPECTED_ITEMS[exp["what"]]
+        line = exp["line"]
+        kind = kinds.get(line, "?")
+        if not any((line, i) in obs["error_items"] for i in ids):
+            other = sorted(i for (ln, i) in obs["error_items"] if ln == line)
+            fails.append(Failure(f"not-flagged:{exp['what']}:{kind}", pub,
+                                 f"line {line} ({src[line]!r}) has an {exp['what'].replace('-', ' ')} but the analyzers "
+                                 f"report no {'/'.join(sorted(ids))} error on it (errors on that line: {other or 'none'})"))
+        elif shown is not None and not any((line, c) in obs["lint_errors"] for c in codes):
+            # the property is about what the editor shows: that error, as a diagnostic ON the offending line
+            fails.append(Failure(f"no-diagnostic-on-line:{exp['what']}:{kind}", pub,
+                                 f"line {line} ({src[line]!r}) has an {exp['what'].replace('-', ' ')}; the analyzer "
+                                 f"reports it, but lint shows no {'/'.join(sorted(codes))!r} error diagnostic on that "
+                                 f"line (error diagnostics: {sorted(obs['lint_errors'])})"))
     if shown is not None:
         # "…so the editor keeps showing all other diagnostics": every line with an analyzer error has a diagnostic
         lost = sorted(obs["error_lines"] - shown)
@@ -548,9 +647,11 @@ def judge(case: dict, obs: dict) -> list[Failure]:
 
 
 def run(ctx: Check) -> int:
-    from harness.translators import unit_table
+    from harness.translators import unit_table, analyzer_ops
     unit_table.generate()
-    ctx.prove(MODULE, REQUIRED, extra_targets=["OPM.Gen.UnitTable"])
+    ops_table = analyzer_ops.generate()
+    ctx.extra["analyzer_partial_operations"] = {c: sum(1 for o in ops_table["ops"] if o[0] == c) for c in ops_table["classes"]}
+    ctx.prove(MODULE, REQUIRED, extra_targets=["OPM.Gen.UnitTable", "OPM.Gen.AnalyzerOps"])
     ctx.rule = ("(method text, tag set, command set): (1) exhaustive small scope: every keyword × tag reference "
                 "(defined with/without unit, close typo, unrelated name, short name, blank) × operator × right-hand side "
                 "(none, value, value+unit ok/compatible/incompatible/invalid, string, unit only) × 3 tag environments "
@@ -583,7 +684,7 @@ def run(ctx: Check) -> int:
     if mout:
         def old_lines(p):
             ops = obs_of(by_pub[id(p)])["ops"]
-            return ops[:-2] + ["analyzeold", "lintold"]
+            return ops[:-2] + ["analyzeallold", "lintallold"]
         ctx.selftest("analyze+lint", "Analyzer", pub, old_lines, mout)
     for c in cases:
         o = obs_of(c)
@@ -621,7 +722,7 @@ def replay(obj) -> int:
         return 0
     c.setdefault("expect", [])
     o = observe(c)
-    m = drive("Analyzer", [o["ops"], o["ops"][:-2] + ["analyzeold", "lintold"]])
+    m = drive("Analyzer", [o["ops"], o["ops"][:-2] + ["analyzeallold", "lintallold"]])
     print("method:")
     for i, ln in enumerate(c["text"].splitlines()):
         print(f"  {i}: {ln!r}")
